@@ -80,9 +80,9 @@ def judge(t):
             if n > 1:
                 V('C08.2-once', 'module %s went through the symbol-table stage %d times' % (m, n), what='module-twice')
     # 1. transitive closure looked up and reported
-    aliased = set(a['name'] for a in attempts for (m, _ast, _mi) in a['mods'] if m != a['name'])
+    aliased = set(a['name'] for a in attempts if a['ok'] for (m, _ast, _mi) in a['mods'] if m != a['name'])
     looked = set(byname)
-    coparsed = set(m for a in attempts for (m, _ast, _mi) in a['mods'])
+    coparsed = set(m for a in attempts if a['ok'] for (m, _ast, _mi) in a['mods'])
     closure = list(scn['requested'])
     winners = {}
     for a in attempts:
@@ -90,10 +90,6 @@ def judge(t):
             for (m, ast, mi) in a['mods']:
                 winners[m] = (a, ast)
                 closure.extend(mi.imported)
-    # a failed attempt may still have registered modules (and their imports) before the failure
-    for a in attempts:
-        for (m, ast, mi) in a['mods']:
-            closure.extend(mi.imported)
     for n in sorted(set(closure)):
         if n not in R and n not in aliased:
             V('C08.1-closure', '%s is in the import closure but has no entry in the result' % n, what='not-reported')
